@@ -53,6 +53,12 @@ CLAIMED = {
    design="5/C17",
    note="Trusted: WinconAnsi.tla, Sgr.tla, VtParser.tla, Strip.tla, TLC. Data is plain text; prefixes are cut at character boundaries. Exhaustive over the stated script space in both tiers (thorough adds more data strings).",
    technique="TLA+ spec (WinconAnsi judged through VtParser+Sgr) + TLC: exhaustive script enumeration replayed into write_colored, calls validated by TLC"),
+ "C18": dict(
+   level="model_checking",
+   text="The platform-independent source of the legacy-console stream (crates/anstream/src/wincon.rs and fmt.rs) is compiled from the working tree into the harness. The specification WinconStream.tla = WinconExtract (VtParser + lenient Sgr) + Cap16 reduction: the bytes the console accepted, tagged with the colours of their call, must be exactly the UTF-8 text of the visible characters, in order, each once, with Cap16(fg)/Cap16(bg) of a rendition consistent with all observations; a buffer is reported consumed only if all its text was handed over; console errors reach the caller. TLC enumerates every SGR sequence of up to 2 groups (and two-run inputs with blank text) with the allowed colour pairs per character, replayed under every chunking via write_all and write; seeded grammar texts x chunkings x op mixes against reliable and faulty consoles are validated call by call by Trace_WinconStream.",
+   design="5/C18",
+   note="Trusted: WinconStream.tla/WinconExtract.tla/Sgr.tla/VtParser.tla, TLC, the stand-ins for crate::stream::{AsLockedWrite,IsTerminal}. Open finding F13 (the HACK: short console write abandons the rest, Ok(len)) is reported from its canonical witness and tolerated only in that shape.",
+   technique="TLA+ spec (WinconStream over WinconExtract) + TLC: enumerated SGR inputs replayed under all chunkings; recorded console calls validated by TLC"),
 }
 PENDING_REASON = "check not built yet in this revision of /verif (planned with the TLA+ specification, see DESIGN.md section 5); not claimed until its quick command exists"
 
